@@ -43,6 +43,12 @@ fn h64(h: u64, x: u64) -> u64 {
 /// Checks C02's conditions (i)-(vi). Returns a description of the first
 /// violated condition.
 pub fn check_structure(s: &Snap) -> Result<StructInfo, String> {
+    check_structure_at(s, None)
+}
+
+/// `now`: for the expiring tree, the current time - two stored entries may carry the same key
+/// only if at least one of them has expired (`aux` = expiration); `None`: keys must be distinct.
+pub fn check_structure_at(s: &Snap, now: Option<i32>) -> Result<StructInfo, String> {
     let len = s.slots.len();
     let mut info = StructInfo::default();
     info.shape_hash = 0xcbf29ce484222325;
@@ -130,6 +136,18 @@ pub fn check_structure(s: &Snap) -> Result<StructInfo, String> {
                 check_leaf(blacks, i as u32, "left")?;
             }
         } else if fr.state == 1 {
+            if let Some(&p) = info.inorder.last() {
+                let prev = &s.slots[p as usize];
+                if prev.key == nd.key {
+                    let both_live = match now {
+                        Some(t) => prev.aux > t && nd.aux > t,
+                        None => true,
+                    };
+                    if both_live {
+                        return Err(format!("two stored live entries carry the same key {} (slots {} and {})", nd.key, p, i));
+                    }
+                }
+            }
             info.inorder.push(i as u32);
             fr.state = 2;
             let k = nd.key as i64;
